@@ -150,20 +150,29 @@ func (o *ObjectSchema) inlineShorthandCycles() bool {
 		visited[current] = true
 		var next *ObjectSchema
 		for _, property := range current.PropertiesValue {
+			// The typed variants (NewTypedObject, NewTypedScopeSchema and their Any() views) embed the
+			// plain schemas, so they are looked through by way of the embedded value's methods.
 			switch propertyType := property.TypeValue.(type) {
-			case *ObjectSchema:
-				next = propertyType
+			case interface{ underlyingObject() *ObjectSchema }:
+				next = propertyType.underlyingObject()
 			case *RefSchema:
 				if propertyType.ObjectReady() {
-					next, _ = propertyType.GetObject().(*ObjectSchema)
+					if referenced, ok := propertyType.GetObject().(interface{ underlyingObject() *ObjectSchema }); ok {
+						next = referenced.underlyingObject()
+					}
 				}
-			case *ScopeSchema:
-				next = propertyType.ObjectsValue[propertyType.RootValue]
+			case interface{ underlyingScope() *ScopeSchema }:
+				scope := propertyType.underlyingScope()
+				next = scope.ObjectsValue[scope.RootValue]
 			}
 		}
 		current = next
 	}
 	return false
+}
+
+func (o *ObjectSchema) underlyingObject() *ObjectSchema {
+	return o
 }
 
 func (o *ObjectSchema) unserializeInlinedDataToMap(data any) (map[string]any, error) {
